@@ -434,6 +434,24 @@ class Body:
                 return self.def_event_of_operand(e.data["r"]["o"], depth + 1) or e
         return e
 
+    def producer_call(self, op, depth=0):
+        """The call event whose result this operand is (through moves, copies, refs, casts)."""
+        p = op_place(op)
+        if p is None or depth > 12:
+            return None
+        e = self.single_def(p[0])
+        if e is None:
+            return None
+        if e.kind == "call":
+            return e
+        if e.kind == "assign":
+            r = e.data["r"]
+            if r["k"] in ("use", "cast"):
+                return self.producer_call(r["o"], depth + 1)
+            if r["k"] in ("ref", "rawptr"):
+                return self.producer_call({"c": [r["p"][0], []]}, depth + 1)
+        return None
+
     # ---------- switch analysis ----------
     def switch_source(self, b):
         """For a switch terminator at block b, describe what is switched on:
